@@ -41,14 +41,14 @@ var errConsumer = errors.New("consumer failed")
 // the final walk / never" are all one query because time.Now() is a fresh non-decreasing symbol
 // at every call).
 //
-//zx:harness prop=C13 id=C13.G tier=quick symclock=1 shard=pipeline:7 K=3 thorough.K=4 thorough.shard=pipeline:7,rows:5
+//zx:harness prop=C13 id=C13.G tier=quick symclock=1 shard=pipeline:8 K=3 thorough.K=4 thorough.shard=pipeline:8,rows:5
 func zxC13Operators() {
 	K := vrtParam("K", 3)
 	k := vrtShape("rows", K+1)
 	until := time.Unix(1500000000, 0)
 	src := &zxRowSrc{fields: Fields{zxSumA}, resolution: time.Second, asOf: until.Add(-10 * time.Second), until: until}
 	for i := 0; i < k; i++ {
-		src.keys = append(src.keys, bytemap.New(map[string]interface{}{"k": i}))
+		src.keys = append(src.keys, bytemap.New(map[string]interface{}{"k": i, "x": "c" + zxItoa(i%2)}))
 		src.vals = append(src.vals, Vals{zxSeq(zxSumA.Expr, until, float64(i+1))})
 	}
 	if vrtShape("srcFails", 2) == 1 {
@@ -60,7 +60,9 @@ func zxC13Operators() {
 	}
 	expected := k
 	var flat FlatRowSource
-	switch vrtShape("pipeline", 7) {
+	switch vrtShape("pipeline", 8) {
+	case 7:
+		flat = Flatten(Group(src, GroupOpts{By: []GroupBy{NewGroupBy("k", goexpr.Param("k"))}, Crosstab: goexpr.Param("x")}))
 	case 0:
 		flat = Flatten(src)
 	case 1:
